@@ -532,4 +532,279 @@ theorem flatMap_len (s : Str) : s.length ≤ (s.flatMap utf8Enc).length := by
     simp only [List.flatMap_cons, List.length_append, List.length_cons]
     omega
 
+/-! ### the recorder: dict lemmas, last-write-wins -/
+
+theorem dGet_dSet {α : Type} (d : List (Str × α)) (k k' : Str) (v : α) :
+    dGet (dSet d k v) k' = if k = k' then some v else dGet d k' := by
+  induction d with
+  | nil => simp [dSet, dGet]
+  | cons e rest ih =>
+    obtain ⟨k0, v0⟩ := e
+    by_cases h0 : k0 = k
+    · subst h0
+      by_cases h1 : k0 = k' <;> simp [dSet, dGet, h1]
+    · by_cases h1 : k0 = k'
+      · subst h1
+        simp [dSet, dGet, h0, Ne.symm h0]
+      · simp [dSet, dGet, h0, h1, ih]
+
+theorem failingId_eq (p : Str) (f : Option Str) : reportedId p f = failingId p f := by
+  unfold reportedId failingId
+  cases f with
+  | none => rfl
+  | some n => cases n <;> rfl
+
+theorem step_cases {σ : Type} (mk : FailureData → σ) (st : Recorder σ) (op : Op) (id : Str) :
+    (dGet (step mk st op).cases id).map (·.value) = (caseWrite id op).or ((dGet st.cases id).map (·.value)) := by
+  cases op with
+  | recordCase p c =>
+    by_cases h : c.id = id <;> simp [step, caseWrite, dGet_dSet, h]
+  | recordResponse i r v => simp [step, caseWrite]
+  | recordRequest i r => simp [step, caseWrite]
+  | checkSuccess n i => simp [step, caseWrite]
+  | onFailure n pid f =>
+    simp only [step, caseWrite]
+    cases findFailureData st pid f <;> simp
+
+theorem step_interactions {σ : Type} (mk : FailureData → σ) (st : Recorder σ) (op : Op) (id : Str) :
+    dGet (step mk st op).interactions id = (sentWrite id op).or (dGet st.interactions id) := by
+  cases op with
+  | recordCase p c => simp [step, sentWrite]
+  | recordResponse i r v => by_cases h : i = id <;> simp [step, sentWrite, dGet_dSet, h]
+  | recordRequest i r => by_cases h : i = id <;> simp [step, sentWrite, dGet_dSet, h]
+  | checkSuccess n i => simp [step, sentWrite]
+  | onFailure n pid f =>
+    simp only [step, sentWrite]
+    cases findFailureData st pid f <;> simp
+
+theorem foldl_cases {σ : Type} (mk : FailureData → σ) (h : List Op) (st : Recorder σ) (id : Str) :
+    (dGet (h.foldl (step mk) st).cases id).map (·.value)
+      = (h.reverse.findSome? (caseWrite id)).or ((dGet st.cases id).map (·.value)) := by
+  induction h generalizing st with
+  | nil => simp
+  | cons op rest ih =>
+    simp only [List.foldl_cons, List.reverse_cons, List.findSome?_append]
+    rw [ih, step_cases]
+    simp only [List.findSome?_cons, List.findSome?_nil]
+    generalize List.findSome? (caseWrite id) rest.reverse = a
+    generalize caseWrite id op = b
+    cases a <;> cases b <;> simp
+
+theorem foldl_interactions {σ : Type} (mk : FailureData → σ) (h : List Op) (st : Recorder σ) (id : Str) :
+    dGet (h.foldl (step mk) st).interactions id
+      = (h.reverse.findSome? (sentWrite id)).or (dGet st.interactions id) := by
+  induction h generalizing st with
+  | nil => simp
+  | cons op rest ih =>
+    simp only [List.foldl_cons, List.reverse_cons, List.findSome?_append]
+    rw [ih, step_interactions]
+    simp only [List.findSome?_cons, List.findSome?_nil]
+    generalize List.findSome? (sentWrite id) rest.reverse = a
+    generalize sentWrite id op = b
+    cases a <;> cases b <;> simp
+
+theorem run_cases {σ : Type} (mk : FailureData → σ) (h : List Op) (id : Str) :
+    (dGet (run mk h).cases id).map (·.value) = lastCase h id := by
+  simp [run, lastCase, foldl_cases, Recorder.empty, dGet]
+
+theorem run_interactions {σ : Type} (mk : FailureData → σ) (h : List Op) (id : Str) :
+    dGet (run mk h).interactions id = lastSent h id := by
+  simp [run, lastSent, foldl_interactions, Recorder.empty, dGet]
+
+theorem findFailureData_run {σ : Type} (mk : FailureData → σ) (h : List Op) (pid : Str) (f : Option Str) :
+    findFailureData (run mk h) pid f = expectedData h (failingId pid f) := by
+  unfold findFailureData expectedData
+  simp only [failingId_eq]
+  rw [← run_cases mk h, ← run_interactions mk h]
+  cases hc : dGet (run mk h).cases (failingId pid f) with
+  | none => simp
+  | some node =>
+    simp only [Option.map_some]
+    cases hi : dGet (run mk h).interactions (failingId pid f) with
+    | none => rfl
+    | some ia =>
+      cases hv : ia.verify with
+      | none => simp [hv]
+      | some v =>
+        simp only [hv]
+        cases hh : firstValues ia.request.headers <;> simp
+
+theorem lastCase_id (h : List Op) (id : Str) (c : CaseVal) (hc : lastCase h id = some c) : c.id = id := by
+  unfold lastCase at hc
+  obtain ⟨op, _, hop⟩ := List.exists_of_findSome?_eq_some hc
+  cases op <;> simp [caseWrite] at hop
+  obtain ⟨h1, h2⟩ := hop
+  subst h2; exact h1
+
+theorem expectedData_id (h : List Op) (id : Str) (fd : FailureData) (hfd : expectedData h id = .ok fd) :
+    fd.case.id = id := by
+  unfold expectedData at hfd
+  split at hfd
+  · cases hfd
+  · rename_i c hc
+    split at hfd
+    · cases hfd
+    · split at hfd
+      · cases hfd
+      · split at hfd
+        · cases hfd; exact lastCase_id h id c hc
+        · cases hfd
+
+/-! ### every stored sample was built for the case it is stored under -/
+
+theorem dGet_appendCheck {σ : Type} (d : List (Str × List (CheckNode σ))) (k0 k : Str) (node : CheckNode σ) :
+    dGet (appendCheck d k0 node) k = if k0 = k then some ((dGet d k0).getD [] ++ [node]) else dGet d k := by
+  unfold appendCheck
+  exact dGet_dSet d k0 k _
+
+/-- every failed check stored under `k` carries the sample built from what the specification selects for `k`
+    after some prefix of the history -/
+def SamplesOk {σ : Type} (mk : FailureData → σ) (h : List Op) (st : Recorder σ) : Prop :=
+  ∀ k nodes node s, dGet st.checks k = some nodes → node ∈ nodes → node.sample = some s →
+    ∃ n fd, n ≤ h.length ∧ expectedData (h.take n) k = .ok fd ∧ s = mk fd
+
+theorem run_snoc {σ : Type} (mk : FailureData → σ) (h : List Op) (op : Op) :
+    run mk (h ++ [op]) = step mk (run mk h) op := by
+  simp [run, List.foldl_append]
+
+theorem samplesOk_mono {σ : Type} (mk : FailureData → σ) (h : List Op) (op : Op) (k : Str) (s : σ)
+    (hx : ∃ n fd, n ≤ h.length ∧ expectedData (h.take n) k = .ok fd ∧ s = mk fd) :
+    ∃ n fd, n ≤ (h ++ [op]).length ∧ expectedData ((h ++ [op]).take n) k = .ok fd ∧ s = mk fd := by
+  obtain ⟨n, fd, hn, he, hs⟩ := hx
+  refine ⟨n, fd, by simp; omega, ?_, hs⟩
+  rw [List.take_append_of_le_length hn]
+  exact he
+
+theorem mem_getD_append {σ : Type} (old : Option (List (CheckNode σ))) (new node : CheckNode σ)
+    (hm : node ∈ old.getD [] ++ [new]) : (∃ nodes, old = some nodes ∧ node ∈ nodes) ∨ node = new := by
+  rcases List.mem_append.1 hm with h | h
+  · cases old with
+    | none => simp at h
+    | some nodes => exact Or.inl ⟨nodes, rfl, by simpa using h⟩
+  · exact Or.inr (by simpa using h)
+
+theorem samplesOk_step {σ : Type} (mk : FailureData → σ) (h : List Op) (op : Op)
+    (hinv : SamplesOk mk h (run mk h)) : SamplesOk mk (h ++ [op]) (run mk (h ++ [op])) := by
+  rw [run_snoc]
+  intro k nodes node s hk hmem hs
+  cases op with
+  | recordCase p c => exact samplesOk_mono mk h _ k s (hinv k nodes node s (by simpa [step] using hk) hmem hs)
+  | recordResponse i r v => exact samplesOk_mono mk h _ k s (hinv k nodes node s (by simpa [step] using hk) hmem hs)
+  | recordRequest i r => exact samplesOk_mono mk h _ k s (hinv k nodes node s (by simpa [step] using hk) hmem hs)
+  | checkSuccess n i =>
+    simp only [step, dGet_appendCheck] at hk
+    by_cases hik : i = k
+    · simp only [hik, if_true, Option.some.injEq] at hk
+      subst hk
+      rcases mem_getD_append _ _ _ hmem with ⟨old, ho, hm⟩ | hnew
+      · exact samplesOk_mono mk h _ k s (hinv k old node s ho hm hs)
+      · subst hnew; simp at hs
+    · simp only [hik, if_false] at hk
+      exact samplesOk_mono mk h _ k s (hinv k nodes node s hk hmem hs)
+  | onFailure n pid f =>
+    simp only [step] at hk
+    cases hfd : findFailureData (run mk h) pid f with
+    | error e =>
+      simp only [hfd] at hk
+      exact samplesOk_mono mk h _ k s (hinv k nodes node s hk hmem hs)
+    | ok fd =>
+      simp only [hfd, dGet_appendCheck] at hk
+      rw [findFailureData_run] at hfd
+      have hid := expectedData_id h _ fd hfd
+      by_cases hik : fd.case.id = k
+      · simp only [hik, if_true, Option.some.injEq] at hk
+        subst hk
+        rcases mem_getD_append _ _ _ hmem with ⟨old, ho, hm⟩ | hnew
+        · exact samplesOk_mono mk h _ k s (hinv k old node s ho hm hs)
+        · subst hnew
+          simp only [Option.some.injEq] at hs
+          refine ⟨h.length, fd, by simp, ?_, hs.symm⟩
+          rw [List.take_append_of_le_length (Nat.le_refl _), List.take_length, ← hik, hid]
+          exact hfd
+      · simp only [hik, if_false] at hk
+        exact samplesOk_mono mk h _ k s (hinv k nodes node s hk hmem hs)
+
+theorem samplesOk_append {σ : Type} (mk : FailureData → σ) (h1 h0 : List Op)
+    (hinv : SamplesOk mk h0 (run mk h0)) : SamplesOk mk (h0 ++ h1) (run mk (h0 ++ h1)) := by
+  induction h1 generalizing h0 with
+  | nil => simpa using hinv
+  | cons op rest ih =>
+    have := ih (h0 ++ [op]) (samplesOk_step mk h0 op hinv)
+    simpa using this
+
+theorem samplesOk_run {σ : Type} (mk : FailureData → σ) (h : List Op) : SamplesOk mk h (run mk h) := by
+  have := samplesOk_append mk h [] (by intro k nodes node s hk; simp [run, Recorder.empty, dGet] at hk)
+  simpa using this
+
+/-! ### a concrete scenario of the `ignored_auth` shape (used by the witnesses and non-vacuity examples) -/
+
+def wUrl : Str := "http://h/reports?page=1".toList
+def wParentReq : RecRequest :=
+  ⟨"GET".toList, wUrl, none, [("X-API-Key".toList, ["valid-key".toList]), ("X-Tenant".toList, ["it's acme".toList])]⟩
+def wDerivedReq : RecRequest := ⟨"GET".toList, wUrl, none, [("X-Tenant".toList, ["it's acme".toList])]⟩
+
+/-- the case is sent with the user's key and passes; the check derives a case without the key, sends it, and reports
+    the failure for the derived case -/
+def wHistory : List Op :=
+  [.recordCase none ⟨"P".toList, 0⟩, .recordResponse "P".toList wParentReq true,
+   .recordCase (some "P".toList) ⟨"D".toList, 1⟩, .recordResponse "D".toList wDerivedReq false,
+   .onFailure "ignored_auth".toList "P".toList (some "D".toList)]
+
+/-- a `prepare_request` that puts the passed headers on a fixed GET -/
+def wPrep : Nat → List (Str × Str) → Prepared := fun _ hs => ⟨"GET".toList, wUrl, none, hs, []⟩
+
+/-- what the command is built from when the request is taken from the parent's exchange -/
+def wParentData : FailureData :=
+  ⟨⟨"D".toList, 1⟩, [("X-API-Key".toList, "valid-key".toList), ("X-Tenant".toList, "it's acme".toList)], false⟩
+
+/-- `reproduces` for a command printed for one prepared request, judged against any original -/
+theorem reproduces_generate (vs : Variants) (tbl auto : Table) (r : Req) (hwf : wf r = true) (o : Original) :
+    reproduces auto o (generate vs tbl r) =
+      sameRequest auto o (if vs.dataAt = .asFound ∧ bodyStartsAt (bodyOf r.body) = true then .readsFile
+        else .request r.method r.url ((filterHeaders vs.filter tbl r.known r.headers).filterMap (sentOf vs.emptyHeader))
+          (bodyOf r.body) (!r.verify)) := by
+  have hm : methodOk r.method = true := by
+    simp only [wf, Bool.and_eq_true] at hwf
+    exact hwf.1.1.1
+  unfold reproduces
+  rw [generate_eq_render vs tbl r hm, shParse_render _ (argvOf_noNul vs tbl r hwf)]
+  simp only [curlSem_argvOf vs tbl r hwf]
+
+theorem codeSample_eq (vs : Variants) (tbl : Table) (prep : Nat → List (Str × Str) → Prepared) (fd : FailureData) :
+    codeSample vs tbl prep fd = generate vs tbl (preparedReq (prep fd.case.obj fd.headers) fd.verify) := rfl
+
+theorem headersOk_congr (auto : Table) (o1 o2 sent : List (Str × Str)) (h : ∀ kv, kv ∈ o1 ↔ kv ∈ o2) :
+    headersOk auto o1 sent = headersOk auto o2 sent := by
+  rw [Bool.eq_iff_iff]
+  simp only [headersOk, Bool.and_eq_true, List.all_eq_true, List.contains_eq_mem, decide_eq_true_eq, Bool.or_eq_true]
+  constructor
+  · rintro ⟨h1, h2⟩
+    exact ⟨fun kv hkv => (h kv).1 (h1 kv hkv), fun kv hkv => h2 kv ((h kv).2 hkv)⟩
+  · rintro ⟨h1, h2⟩
+    exact ⟨fun kv hkv => (h kv).2 (h1 kv hkv), fun kv hkv => h2 kv ((h kv).1 hkv)⟩
+
+/-- `reproduces` does not depend on the order (or multiplicity) of the original's header fields -/
+theorem reproduces_congr_headers (auto : Table) (m u : Str) (b : Option Str) (v : Bool) (o1 o2 : List (Str × Str))
+    (h : ∀ kv, kv ∈ o1 ↔ kv ∈ o2) (cmd : Str) :
+    reproduces auto ⟨m, u, o1, b, v⟩ cmd = reproduces auto ⟨m, u, o2, b, v⟩ cmd := by
+  unfold reproduces
+  cases shParse cmd with
+  | none => rfl
+  | some argv =>
+    simp only
+    cases curlSem argv with
+    | request m' u' hs' b' k' => simp only [sameRequest, headersOk_congr auto o1 o2 hs' h]
+    | readsFile => rfl
+    | globbed => rfl
+    | unsupported => rfl
+
+theorem reproduces_of_faithful (vs : Variants) (hall : ReproducesAll vs) (tbl : Table) (p : Prepared) (v : Bool)
+    (ia : Interaction) (hs : List (Str × Str)) (hm : p.method = ia.request.method) (hu : p.url = ia.request.uri)
+    (hb : p.body = ia.request.body) (hh : ∀ kv, kv ∈ p.headers ↔ kv ∈ hs) (hwf : wf (preparedReq p v) = true) :
+    reproduces tbl (sentOriginal ia hs v) (generate vs tbl (preparedReq p v)) = true := by
+  have e : sentOriginal ia hs v = ⟨p.method, p.url, hs, p.body, v⟩ := by
+    simp [sentOriginal, hm, hu, hb]
+  rw [e, ← reproduces_congr_headers tbl p.method p.url p.body v p.headers hs hh]
+  exact hall tbl (preparedReq p v) hwf
+
 end SV.Proofs.C09
